@@ -826,7 +826,28 @@ pub fn run(args: &Args) {
         };
         println!("replaying C06 case (shape {})", c["shape"]);
         let m = matrix.map(|m| String::from_utf8_lossy(&m).to_string());
-        run_texts(&mut sink, &env, None, m, String::from_utf8_lossy(&lexicon).to_string(), "replay", true);
+        run_texts(&mut sink, &env, None, m.clone(), String::from_utf8_lossy(&lexicon).to_string(), "replay", true);
+        if c["shape"] == "fault_enumeration" {
+            let mb = m.as_ref().map(|x| x.as_bytes());
+            let total = build(&env, mb, &lexicon).bytes.len();
+            println!("fault enumeration over {} bytes:", total);
+            let mut wrong = 0;
+            for k in 0..=total {
+                let mut w = FailingWriter { limit: k, written: 0 };
+                let st = match build_into(&env, mb, &lexicon, &mut w) {
+                    Ok(Ok(())) => "Ok",
+                    Ok(Err(_)) => "Err",
+                    Err(_) => "Panic",
+                };
+                if (k < total && st != "Err") || (k >= total && st != "Ok") {
+                    wrong += 1;
+                    println!("  sink accepting {} of {} bytes: compilation reports {}", k, total, st);
+                    let id = sink.case_rust_only(json!({"kind": "c06-raw", "shape": "fault_enumeration_replay", "k": k}), true);
+                    sink.fail(id, &format!("sink accepting {} of {} bytes: compilation reports {}", k, total, st), "");
+                }
+            }
+            println!("  offsets with a wrong outcome: {}", wrong);
+        }
         sink.finish();
         return;
     }
